@@ -974,6 +974,11 @@ func (p *BinaryProtocol) ReadLength() (int, error) {
 	if n < 0 {
 		return 0, errDecodeField
 	}
+	// a length prefix can never exceed the bytes that follow it; checking it unsigned also keeps
+	// int(value) from going negative for varints >= 2^63
+	if value > uint64(len(p.Buf)-p.Read-n) {
+		return 0, errDecodeField
+	}
 	_, err := p.next(n)
 	return int(value), err
 }
